@@ -1,11 +1,10 @@
 /* Point / Channel copy constructors: every stored frame goes through them (C01 C06 C08). */
-#include "model_contracts.h"
+#include "vf_harness.h"
 size_t vf_gk, vf_gj, vf_gc;
 
 /* the vector<float> growth 0 -> 4 in Point's constructor is run on the model body (constant bound 4) */
 void contract_Point__ctor__Point(struct Point *self, const struct Point *p)
-__CPROVER_requires(vf_exc == 0 && __CPROVER_is_fresh(self, sizeof(*self)) && __CPROVER_is_fresh(p, sizeof(*p)))
-__CPROVER_requires(VF_STR_OK(p->_name) && p->_data.size == 4 && __CPROVER_is_fresh(p->_data.data, 4 * sizeof(float)))
+__CPROVER_requires(vf_exc == 0 && __CPROVER_rw_ok(self, sizeof(*self)) && __CPROVER_r_ok(p, sizeof(*p)) && VF_POINT_OK(*p))
 __CPROVER_assigns(*self)
 /*@ C01 C06 C08 C13 : Point_copy.data-fresh-4 */
 __CPROVER_ensures(self->_data.size == 4 && __CPROVER_is_fresh(self->_data.data, 4 * sizeof(float)))
@@ -20,15 +19,15 @@ __CPROVER_ensures(self->_data.size == 4 && __CPROVER_is_fresh(self->_data.data, 
 
 void h_Point_copy(void)
 {
-  struct Point *self;
-  const struct Point *p;
+  struct Point *self = (struct Point *)vf_alloc(sizeof(*self));
+  struct Point *p = (struct Point *)vf_alloc(sizeof(*p));
+  vf_mk_point(p);
   Point__ctor__Point(self, p);
   __CPROVER_assert(0, "VACUITY_CANARY");
 }
 
 void contract_Channel__ctor__Channel(struct Channel *self, const struct Channel *channel)
-__CPROVER_requires(vf_exc == 0 && __CPROVER_is_fresh(self, sizeof(*self)) && __CPROVER_is_fresh(channel, sizeof(*channel)))
-__CPROVER_requires(VF_STR_OK(channel->_name))
+__CPROVER_requires(vf_exc == 0 && __CPROVER_rw_ok(self, sizeof(*self)) && __CPROVER_r_ok(channel, sizeof(*channel)) && VF_CHANNEL_OK(*channel))
 __CPROVER_assigns(*self)
 /*@ C01 C06 : Channel_copy.value-kept */ __CPROVER_ensures(VF_FBITS(self->_data) == VF_FBITS(channel->_data))
 /*@ C01 C06 : Channel_copy.name-length */ __CPROVER_ensures(self->_name.size == channel->_name.size)
@@ -38,8 +37,9 @@ __CPROVER_assigns(*self)
 
 void h_Channel_copy(void)
 {
-  struct Channel *self;
-  const struct Channel *channel;
+  struct Channel *self = (struct Channel *)vf_alloc(sizeof(*self));
+  struct Channel *channel = (struct Channel *)vf_alloc(sizeof(*channel));
+  vf_mk_channel(channel);
   Channel__ctor__Channel(self, channel);
   __CPROVER_assert(0, "VACUITY_CANARY");
 }
